@@ -207,11 +207,20 @@ func runC16(r *mon.Run) {
 			for j := range ps {
 				snaps[j] = snapPoint(ps[j])
 			}
+			// the argument SLICES are the caller's too: same pointers in the same order afterwards
+			scalArg := append([]*Scalar{}, scal...)
+			psKeep := append([]*Point{}, ps...)
 			var ret *Point
 			if vt == 0 {
-				ret = v.MultiScalarMult(scal, ps)
+				ret = v.MultiScalarMult(scalArg, ps)
 			} else {
-				ret = v.MultiScalarMultVartime(scal, ps)
+				ret = v.MultiScalarMultVartime(scalArg, ps)
+			}
+			for j := range ps {
+				if ps[j] != psKeep[j] || scalArg[j] != scal[j] {
+					w.Fail("c16/"+name+":argument-slices", fmt.Sprintf("%s reordered or replaced the entries of its argument slices (position %d)", name, j))
+					break
+				}
 			}
 			if ret != v {
 				w.Fail("c16/"+name+":ret", name+" did not return its receiver")
